@@ -23,7 +23,7 @@ for h in "$@"; do
   [ -f $src ] || continue
   if [ ! -x $OUT/$h ] || [ $src -nt $OUT/$h ] || [ $LIB -nt $OUT/$h ] || [ harness/common.h -nt $OUT/$h ]; then
     extra=""
-    case $h in h_mkterm|h_round) extra="-lz3";; esac
+    case $h in h_mkterm|h_round|h_theory) extra="-lz3";; esac
     $CXX $FLAGS -o $OUT/$h $src $LIB -lrapidcheck -lgmpxx -lgmp -lpthread $extra
     echo built $h
   fi
